@@ -26,16 +26,21 @@ from ..core import Prop, Failure, enc, enc_list
 UNIT = 1024
 CONNECT = ("ct", "cr")
 READ = ("rt", "rr", "re", "rg")
+# the socket's send fails once the whole request has gone out: "st" socket.timeout (re-raised by _make_request),
+# "sr" ConnectionResetError / "sp" BrokenPipeError (both swallowed by _make_request, the response is then read from
+# the dead connection: reset resp. EOF).  Ground truth: the request may have reached the server -> read error
+SEND = ("st", "sr", "sp")
 RETRY_AFTER_CODES = (413, 429, 503)          # the property text, not the source table
 KNOWN_SIG = "proxy-read-reset-relabelled-proxyerror"
 
 DEFAULT_ALLOWED = ["DELETE", "GET", "HEAD", "OPTIONS", "PUT", "TRACE"]
 COUNTS = [None, None, 0, 1, 2, 3]
 METHODS = ["GET", "POST", "PUT", "get", "DELETE", "PATCH"]
-ALPHABET = [["ct"], ["cr"], ["rt"], ["rr"], ["re"], ["rg"], ["o"], ["s", 200, None], ["s", 204, None],
+ALPHABET = [["ct"], ["cr"], ["st"], ["sr"], ["sp"], ["rt"], ["rr"], ["re"], ["rg"], ["o"], ["s", 200, None], ["s", 204, None],
             ["s", 500, None], ["s", 500, 9], ["s", 503, None], ["s", 503, 7], ["s", 503, 0], ["s", 429, 3],
             ["s", 413, 2], ["s", 418, None], ["s", 200, 5]]
 SMALL_ALPHABET = [["ct"], ["rt"], ["rr"], ["re"], ["rg"], ["o"], ["s", 200, None], ["s", 500, None], ["s", 503, 3]]
+SEND_ALPHABET = [["st"], ["sr"], ["sp"]]
 # replies with `Location:` a path on the same pool ("l"); 200+Location and 301 without Location are no redirects
 LOCATED = [["l", 301, None], ["l", 302, None], ["l", 302, None], ["l", 303, None], ["l", 303, None], ["l", 307, None],
            ["l", 308, None], ["l", 302, 4], ["l", 303, 0], ["l", 200, None], ["l", 500, None], ["s", 301, None],
@@ -71,7 +76,7 @@ def category(o):
         return "redirect"
     if o[0] in CONNECT:
         return "connect"
-    if o[0] in READ:
+    if o[0] in READ or o[0] in SEND:
         return "read"
     if o[0] == "o":
         return "other"
@@ -175,10 +180,12 @@ class C04(Prop):
             "status_forcelist in {None, [500], [500, 503], [418]}, raise_on_status, respect_retry_after_header, "
             "backoff_factor in {0, 0.5, 1, 4, -0.5}, backoff_max in {0, 1, 3, 120}) or the legacy retries= forms "
             "{None, False, 0..3} x methods {GET, POST, PUT, get, DELETE, PATCH} x per-attempt outcome scripts of "
-            "length <= 5 over {connect timeout, connect refused, read timeout, reset, EOF, garbage status line, "
+            "length <= 5 over {connect timeout, connect refused, send timeout / reset / broken pipe once the request "
+            "has gone out, read timeout, reset, EOF, garbage status line, "
             "ssl error while reading (other), 200, 204, 500, 500+Retry-After, 503, 503+Retry-After 7/0, 429+RA, 413+RA, "
             "418, 200+RA}, each followed by a final 200; with and without keep-alive. quick: exhaustive scripts of "
-            "length <= 3 over a 9-letter alphabet x 3 pool kinds x {GET, POST} x 3 configurations + random; thorough: "
+            "length <= 3 over a 9-letter alphabet x 3 pool kinds x {GET, POST} x 3 configurations, every script of "
+            "length <= 2 over that alphabet + the 3 send failures containing a send failure + random; thorough: "
             "more configurations + 20x random. Compared with the Lean model: outcomes consumed, requests on the wire, "
             "sleeps, final result, then increment/is_exhausted/get_backoff_time/is_retry/sleep on the bare object "
             "field by field. Redirect family: replies 301/302/303/307/308 (+ 200, 500) with Location: a path on "
@@ -236,6 +243,16 @@ class C04(Prop):
                  "forcelist": [500, 503], "ros": True, "rra": True, "bf": 4, "bmax": 1},
                 {"arg": None}, {"arg": 1},
             ]
+        # ---- send family (first: small, and time-budgeted shards reach the head of the generator under any load):
+        # every script of length <= 2 over the small alphabet + {st, sr, sp} that contains a send failure
+        sscripts = [list(t) for n in (1, 2) for t in itertools.product(SMALL_ALPHABET + SEND_ALPHABET, repeat=n)
+                    if any(o[0] in SEND for o in t)]
+        for mode in ("direct", "fwd", "tun"):
+            for cfg in grid:
+                for method in ("GET", "POST"):
+                    for sc in sscripts:
+                        yield {"mode": mode, "retry": cfg, "method": method, "script": sc, "keepalive": False,
+                               "body": method == "POST" and len(sc) % 2 == 1, "kind": "exh-send"}
         scripts = [[]]
         for n in (1, 2, 3):
             scripts += [list(t) for t in itertools.product(SMALL_ALPHABET, repeat=n)]
@@ -350,14 +367,15 @@ class C04(Prop):
         import urllib3.util.retry as ur
         from urllib3 import HTTPConnectionPool, ProxyManager
         from urllib3.exceptions import HTTPError, MaxRetryError
-        from ..net import Net, Server, http_response
+        from ..net import Net, Server, http_response, parse_request
 
         mode, method, keep = case["mode"], case["method"], bool(case.get("keepalive"))
         redirect, preload = bool(case.get("redirect", True)), bool(case.get("preload", True))
         via = case.get("via", "pool" if mode == "direct" else "manager")
         body = b"payload" if case.get("body") else None
         script = [list(o) for o in case["script"]] + [["s", 200, None]]
-        state = {"i": 0, "att": [], "entries": [], "sleeps": [], "cur": None, "unconsulted": False, "wire": []}
+        state = {"i": 0, "att": [], "entries": [], "sleeps": [], "cur": None, "unconsulted": False, "wire": [],
+                 "send_fired": set()}
         net = Net()
         base = "http://origin" if mode == "fwd" else ""        # a forwarding proxy needs absolute-form targets
 
@@ -372,6 +390,31 @@ class C04(Prop):
 
         net.connect_hook = connect_hook
 
+        def send_hook(sock, data):
+            """a scripted send failure fires in the `send` that completes the request of the attempt: the bytes
+            go out (the server receives the request) and the call fails afterwards"""
+            o, i = state["cur"], state["i"]
+            if o is None or o[0] not in SEND or i in state["send_fired"]:
+                return
+            if state.get("send_buf_for") != (i, sock.sid):
+                state["send_buf_for"], state["send_buf"] = (i, sock.sid), b""
+            if not state["send_buf"] and data.startswith(b"CONNECT "):
+                return                                  # setting up the tunnel belongs to connecting
+            state["send_buf"] += data
+            if parse_request(state["send_buf"])[0] is None:
+                return                                  # head without its body: let it through, the body follows
+            state["send_fired"].add(i)
+            net.log("send", sock.sid, len(data))
+            net.sent.setdefault(sock.sid, bytearray()).extend(data)
+            sock.peer.feed(data)
+            if o[0] == "st":
+                raise TimeoutError("timed out")
+            if o[0] == "sr":
+                raise ConnectionResetError(errno.ECONNRESET, "Connection reset by peer")
+            raise BrokenPipeError(errno.EPIPE, "Broken pipe")
+
+        net.send_hook = send_hook
+
         def handler(peer, req):
             if req.method == "CONNECT":
                 peer.tunnel_to = ("origin", 443)
@@ -384,8 +427,12 @@ class C04(Prop):
             if k in CONNECT:
                 state["unconsulted"] = True          # a connect fault was scripted but no socket was opened
                 k = "re"
-            if k == "rt":
+            if k in ("rt", "st"):
                 return
+            if k == "sr":
+                k = "rr"                                # the response is read although `send` was reset
+            if k == "sp":
+                k = "re"                                # the response is read although the pipe was broken
             if k == "rr":
                 peer.fault_on_read(ConnectionResetError(errno.ECONNRESET, "Connection reset by peer"))
             elif k == "re":
@@ -475,7 +522,8 @@ class C04(Prop):
         finally:
             ur.time = saved_time
         return {"att": state["att"], "entries": state["entries"], "wire": wire, "sleeps": state["sleeps"],
-                "res": res, "returned": returned, "unconsulted": state["unconsulted"]}
+                "res": res, "returned": returned, "unconsulted": state["unconsulted"],
+                "send_fired": state["send_fired"]}
 
     @staticmethod
     def target_id(url):
@@ -516,6 +564,8 @@ class C04(Prop):
         if obs["unconsulted"]:
             raise AssertionError("generator produced a connect fault on a reused connection")
         att, wire, sleeps, (rk, rv, robj) = obs["att"], obs["wire"], obs["sleeps"], obs["res"]
+        if {i for i, o in enumerate(att) if o[0] in SEND} != obs["send_fired"]:
+            raise AssertionError("a scripted send failure did not fire (or fired in another attempt)")
         entries, returned = obs["entries"], obs["returned"]
         script = case["script"] + [["s", 200, None]]
         res.bump("mode:" + mode)
@@ -689,7 +739,7 @@ class C04(Prop):
             m_i = exp[i][0]
             if not (am and m_i.upper() not in am):
                 continue
-            if o[0] in READ or (o[0] in REPLY and not followed[i]):
+            if o[0] in READ or o[0] in SEND or (o[0] in REPLY and not followed[i]):
                 if proxied and o[0] in ("rr", "re"):
                     fail(KNOWN_SIG, f"{mode}: {m_i} (not in allowed_methods) re-sent after a connection "
                          f"{'reset' if o[0] == 'rr' else 'EOF'} while reading the response")
